@@ -372,3 +372,27 @@ PROPS["C10"] = dict(
          "sweep; distinct = hash of the case's first random draw; non-trivial = every case",
     assumptions=["NaN excluded", "Box containers are not copied"],
 )
+
+PROPS["C20"] = dict(
+    harness="c20_file.c", level="exploration", ld="-Wl,--wrap=fopen,--wrap=fclose",
+    technique="runtime reference-model monitor: byte-array + position + open-flag model of one File, link-time "
+              "interposed fopen/fclose handle ledger, stell/seof compared with ftell/feof on the same FILE*, "
+              "independent read-back of the file; ASan+UBSan",
+    level_text="Exploration: random sequences of sopen (10 modes, also while already open), swrite in random "
+               "chunkings (0 bytes to several stdio buffers, zero bytes inside), print_to, sread in random chunkings "
+               "incl. past the end, sseek with all three origins, sflush, sclose, del, on heap and stack File "
+               "objects; after every operation stell/seof agree with the reference and with the C library, after "
+               "every flush/close the file on disk equals the reference, every successful fopen is matched by "
+               "exactly one fclose, and every operation on a File that is not open raises IOError.",
+    level_note="Where an append stream stands before its first seek is left to the C library. Reads and writes on "
+               "update streams are separated by a seek, as C requires.",
+    quick=[("asan", 16, 120)],
+    thorough=[("asan", 16, 3000), ("plain", 16, 10000)],
+    floors={"quick": {"closed_file_probes": 200, "reads_past_the_end": 50, "zero_byte_writes": 20,
+                      "writes_larger_than_a_stdio_buffer": 20, "seeks_from_start": 50, "seeks_from_current": 50,
+                      "seeks_from_end": 50, "reopens_while_open": 50, "dels_of_open_files": 20, "with_blocks": 1,
+                      "text_roundtrips": 1, "append_opens": 50, "formatted_writes": 50}},
+    rule="case = one File object driven through 20-80 (thorough: up to 140) random stream operations; distinct = hash "
+         "of the operation list; non-trivial = at least 20 operations",
+    assumptions=["one File object per case, one file on disk per shard", "offsets stay within the file"],
+)
